@@ -85,7 +85,9 @@ theorem benignP_doDespawnWork (s : St) (work : List (Nat × Bool)) : BenignP s (
   split
   · exact (BenignS.refl _).toP
   · split
-    · exact benignP_push (benignS_despawn1 _ _) _ (inert_one rfl)
+    · split
+      · exact benignP_push (benignS_despawn1 _ _) _ (inert_one rfl)
+      · exact benignP_push (BenignS.refl _) _ (inert2 rfl rfl)
     · split
       · refine benignP_push (Same.benignS ?_) _ (inert_one rfl); same_rfl
       · exact benignP_push (BenignS.refl _) _ (inert_one rfl)
